@@ -20,6 +20,30 @@ use wac_graph::{
 };
 use wasmparser::BinaryReaderError;
 
+/// Verification hook (only with `--cfg wac_verif`): a thread-local log of the
+/// package keys requested through `AstResolver::resolve_package`.
+#[cfg(wac_verif)]
+pub mod verif_request_log {
+    use std::cell::RefCell;
+
+    /// A logged request: package name, version text, offset of the requesting
+    /// span and whether the package was already registered with the graph.
+    pub type Entry = (String, Option<String>, usize, bool);
+
+    thread_local! {
+        static LOG: RefCell<Vec<Entry>> = const { RefCell::new(Vec::new()) };
+    }
+
+    pub(crate) fn record(entry: Entry) {
+        LOG.with(|l| l.borrow_mut().push(entry));
+    }
+
+    /// Takes (and clears) the log of the current thread.
+    pub fn take() -> Vec<Entry> {
+        LOG.with(|l| std::mem::take(&mut *l.borrow_mut()))
+    }
+}
+
 fn method_extern_name(resource: &str, name: &str, kind: FuncKind) -> String {
     match kind {
         FuncKind::Free => unreachable!("a resource method cannot be a free function"),
@@ -2739,6 +2763,14 @@ impl<'a> AstResolver<'a> {
         span: SourceSpan,
         packages: &mut IndexMap<BorrowedPackageKey<'a>, Vec<u8>>,
     ) -> ResolutionResult<PackageId> {
+        #[cfg(wac_verif)]
+        verif_request_log::record((
+            name.to_string(),
+            version.map(|v| v.to_string()),
+            span.offset(),
+            state.graph.get_package_by_name(name, version).is_some(),
+        ));
+
         match state.graph.get_package_by_name(name, version) {
             Some((id, _)) => Ok(id),
             None => {
